@@ -24,10 +24,10 @@ SC_OBJ = {"+": "SCALAR_ADDER", "-": "SCALAR_SUBSTRACTER", "*": "SCALAR_MULTIPLIE
           "^": "SCALAR_POWER", ">": "SCALAR_ABOVE", "<": "SCALAR_BELOW"}
 SCR_OBJ = {"+": "SCALAR_ADDER", "-": "SCALAR_REV_SUBSTRACTER", "*": "SCALAR_MULTIPLIER", "/": "SCALAR_REV_DIVIDER",
            "^": "SCALAR_REV_POWER", ">": "SCALAR_REV_ABOVE", "<": "SCALAR_REV_BELOW"}
-FUN_OBJ = {"D": "DIFFERENTIATOR", "I": "INTEGRATOR", "ABS": "RECTIFIER", "SIGN": "SIGN", "DIODE": "DIODE",
+FUN_OBJ = {"D": "DIFFERENTIATOR", "D2": "SECOND_ORDER_FINITE_DIFF", "I": "INTEGRATOR", "ABS": "RECTIFIER", "SIGN": "SIGN", "DIODE": "DIODE",
            "SUM": "SUM", "AVG": "AVERAGER", "VAR": "VARIANCE", "MSE": "MSE", "MIN": "MIN", "MAX": "MAX",
            "ARGMIN": "ARGMIN", "ARGMAX": "ARGMAX", "MEDIAN": "MEDIAN", "MAD": "MAD"}
-VOID_FUN = {"D", "I", "ABS", "SIGN", "DIODE"}
+VOID_FUN = {"D", "D2", "I", "ABS", "SIGN", "DIODE"}
 LITS = {"0", "1", "2", "3", "0.5"}
 
 
